@@ -254,7 +254,177 @@ def r19_6(chk, P):
                'falsifies: a second call on the same state moves the window (and the data) again')
 
 
+def _linform(F, e, defs, depth=0):
+    """expression as a linear form over named locals with rational coefficients: {name: Fraction, 1: Fraction} or None.
+    Single-definition locals that are themselves linear in others are expanded; the block-size locals stay symbols"""
+    from fractions import Fraction
+    nd = F.ex[F.strip_casts(e)]
+    k = nd['k']
+    if k == 'int':
+        return {1: Fraction(nd['v'])}
+    if k == 'ref' and nd['decl'].get('kind') in ('var', 'param'):
+        d = defs.get(nd['decl'].get('id'))
+        if d is not None and depth < 4:
+            sub = _linform(F, d, defs, depth + 1)
+            if sub is not None and F.ex[F.strip_casts(d)]['k'] in ('bin', 'ref', 'int'):
+                dn = F.ex[F.strip_casts(d)]
+                if not (dn['k'] == 'bin' and dn['op'] in ('>>', '<<')):
+                    return sub
+        return {nd['decl']['name']: Fraction(1)}
+    if k == 'bin' and nd['op'] in ('+', '-'):
+        a, b = _linform(F, nd['c'][0], defs, depth), _linform(F, nd['c'][1], defs, depth)
+        if a is None or b is None:
+            return None
+        out = dict(a)
+        for kk, v in b.items():
+            out[kk] = out.get(kk, 0) + (v if nd['op'] == '+' else -v)
+        return out
+    if k == 'bin' and nd['op'] in ('/', '*', '>>', '<<'):
+        a, b = _linform(F, nd['c'][0], defs, depth), _linform(F, nd['c'][1], defs, depth)
+        if a is None or b is None:
+            return None
+        if set(b) <= {1}:
+            c = b.get(1, Fraction(0))
+            if nd['op'] == '/' and c != 0:
+                return {kk: v / c for kk, v in a.items()}
+            if nd['op'] == '*':
+                return {kk: v * c for kk, v in a.items()}
+            if nd['op'] == '>>' and c >= 0:
+                return {kk: v / (2 ** int(c)) for kk, v in a.items()}
+            if nd['op'] == '<<' and c >= 0:
+                return {kk: v * (2 ** int(c)) for kk, v in a.items()}
+        if nd['op'] == '*' and set(a) <= {1}:
+            c = a.get(1, Fraction(0))
+            return {kk: v * c for kk, v in b.items()}
+        return None
+    if k in ('sub', 'member'):
+        return {'@' + F.s(F.strip_casts(e)): Fraction(1)}        # an opaque term (a channel vector)
+    return None
+
+
+def _lf_eq(a, b):
+    keys = set(a) | set(b)
+    return all(a.get(k, 0) == b.get(k, 0) for k in keys)
+
+
+def r19_7(chk, P):
+    chk.rule('R19.7', 'vorbis_synthesis_lapout closes the gap exactly: every relocation of finished samples in it (a copy of C values '
+             'from the start of a channel vector to offset S of the same vector, by a loop or by memmove) satisfies S + C == n1 -- '
+             'the moved data ends where the second half of the current block begins -- and the window fields pcm_returned and '
+             'pcm_current are advanced by that same S in the same branch (linear identities over the block-size locals, '
+             'rational coefficients; the expressions are taken from the code, not assumed)')
+    from fractions import Fraction
+    F = P.need('vorbis_synthesis_lapout')
+    defs = common.single_defs(F)
+    n1 = None
+    for vid, v in F.vars.items():
+        d = defs.get(vid)
+        if d is not None:
+            cs = F.s(F.strip_casts(d), names=False)
+            if 'blocksizes[1]' in cs and '>>' in cs:
+                n1 = v['name']
+    chk.require(n1 is not None, 'vorbis_synthesis_lapout: the long half-block size local was not found')
+    # relocations: pointer locals d (= vector + S) and s (= vector) and a copy between them
+    moves = []
+    for e in sorted(F.pos):
+        nd = F.ex[e]
+        cnt = None
+        dst = src = None
+        if nd['k'] == 'call' and nd['callee'].get('d') in ('memmove', 'memcpy') and len(nd.get('c', [])) == 3:
+            dst, src = nd['c'][0], nd['c'][1]
+            sz = F.ex[F.strip_casts(nd['c'][2])]
+            if sz['k'] == 'bin' and sz['op'] == '*':
+                for a, b in ((sz['c'][0], sz['c'][1]), (sz['c'][1], sz['c'][0])):
+                    if F.ex[F.strip_casts(a)]['k'] in ('sizeof', 'int') or 'sizeof' in F.s(F.strip_casts(a)):
+                        cnt = _linform(F, b, defs)
+        elif nd['k'] == 'assign' and nd['op'] == '=':
+            l, r = F.ex[F.strip_casts(nd['c'][0])], F.ex[F.strip_casts(nd['c'][1])]
+            if l['k'] == 'sub' and r['k'] == 'sub' and F.s(F.strip_casts(l['c'][1])) == F.s(F.strip_casts(r['c'][1])):
+                iv = F.ex[F.strip_casts(l['c'][1])]
+                lb, rb = F.ex[F.strip_casts(l['c'][0])], F.ex[F.strip_casts(r['c'][0])]
+                if iv['k'] == 'ref' and lb['k'] == 'ref' and rb['k'] == 'ref' and lb['decl'].get('id') != rb['decl'].get('id'):
+                    # the loop that drives the copy
+                    for h, body in cfg.loops(F).items():
+                        if F.pos[e][0] in body:
+                            t = F.blocks[h].get('term')
+                            c = F.ex[F.strip_casts(t['cond'])] if t and t.get('cond') is not None else None
+                            if c is None or c['k'] != 'bin':
+                                continue
+                            cv = F.ex[F.strip_casts(c['c'][0])]
+                            if cv['k'] != 'ref' or cv['decl'].get('id') != iv['decl'].get('id'):
+                                continue
+                            if c['op'] == '>=' and common.is_zero(F, c['c'][1]):
+                                # counts down from its initial value: init+1 values
+                                for q in F.pos:
+                                    qn = F.ex[q]
+                                    if qn['k'] == 'assign' and qn['op'] == '=' and F.ex[F.strip_casts(qn['c'][0])].get('decl', {}).get('id') == iv['decl']['id'] \
+                                            and cfg.pos_dominates(F, q, e) and F.pos[q][0] not in body:
+                                        lf = _linform(F, qn['c'][1], defs)
+                                        if lf is not None:
+                                            cnt = dict(lf)
+                                            cnt[1] = cnt.get(1, 0) + 1
+                            elif c['op'] == '<':
+                                cnt = _linform(F, c['c'][1], defs)
+                            dst, src = nd['c'][0], nd['c'][1]
+                            dst, src = l['c'][0], r['c'][0]
+        if dst is None or cnt is None:
+            continue
+        dn, sn = F.ex[F.strip_casts(dst)], F.ex[F.strip_casts(src)]
+        if dn['k'] != 'ref' or sn['k'] != 'ref':
+            continue
+        dd, sd = defs.get(dn['decl'].get('id')), defs.get(sn['decl'].get('id'))
+        if dd is None or sd is None:
+            continue
+        ld, ls = _linform(F, dd, defs), _linform(F, sd, defs)
+        if ld is None or ls is None:
+            continue
+        S = dict(ld)
+        for kk, v in ls.items():
+            S[kk] = S.get(kk, 0) - v
+        S = {kk: v for kk, v in S.items() if v != 0}
+        if any(isinstance(kk, str) and kk.startswith('@') for kk in S):
+            continue            # not the same vector
+        moves.append((e, S, cnt))
+    chk.require(moves, 'vorbis_synthesis_lapout: no relocation of finished samples found')
+    dom = cfg.dominators(F)
+    for i, (e, S, C) in enumerate(sorted(moves, key=lambda m: F.ex[m[0]]['loc'])):
+        tot = dict(S)
+        for kk, v in C.items():
+            tot[kk] = tot.get(kk, 0) + v
+        ok = _lf_eq(tot, {n1: Fraction(1)})
+
+        def show(lf):
+            return ' + '.join(f'{v}*{k}' if k != 1 else str(v) for k, v in sorted(lf.items(), key=lambda kv: str(kv[0])) if v != 0) or '0'
+        chk.ob('R19.7', F.name, f'relocation-ends-at-centre#{i}', ok, F.where(e),
+               f'offset {show(S)} + count {show(C)} = {n1}' if ok else
+               f'offset {show(S)} + count {show(C)} = {show(tot)}, not {n1}: the samples between the moved data and the second half of '
+               'the current block are left as they were (stale audio after the lap region)')
+        # the window fields move by the same amount in the same branch
+        loopconds = {F.strip_casts(F.blocks[h_]['term']['cond']) for h_ in cfg.loops(F)
+                     if F.blocks[h_].get('term') and F.blocks[h_]['term'].get('cond') is not None}
+
+        def branch_conds(q_):
+            return {(c_, p_) for c_, p_ in common.atomic_conditions(F, q_) if F.strip_casts(c_) not in loopconds}
+        conds = branch_conds(e)
+        adv = []
+        for q in F.pos:
+            qn = F.ex[q]
+            if qn['k'] == 'assign' and qn['op'] == '+=':
+                l = F.ex[F.strip_casts(qn['c'][0])]
+                if l['k'] == 'member' and l.get('field') in ('pcm_returned', 'pcm_current'):
+                    qc = branch_conds(q)
+                    if qc and qc == conds:
+                        adv.append((l['field'], _linform(F, qn['c'][1], defs), q))
+        flds = {f for f, lf, q in adv}
+        ok2 = flds == {'pcm_returned', 'pcm_current'} and all(lf is not None and _lf_eq(lf, S) for f, lf, q in adv)
+        chk.ob('R19.7', F.name, f'window-moves-with-the-data#{i}', ok2, F.where(e),
+               f'pcm_returned and pcm_current are advanced by {show(S)} in the same branch' if ok2 else
+               f'the data moves by {show(S)} but the window fields advance by {[(f, show(lf) if lf else "?") for f, lf, q in adv]}')
+
+
 def run(chk, P):
+    r19_7(chk, P)
+    chk.floor('R19.7', 2)
     r19_6(chk, P)
     chk.floor('R19.6', 4)
     r19_5(chk, P)
